@@ -9,7 +9,7 @@ RULE = ('every function of 3 variables (sampled at 4-5) x every pair of (source 
         'order != level order), through BDD.copy, dd.bdd.copy_bdd, dd.autoref.copy_bdd, dd.autoref.BDD.copy, '
         'dd._copy.copy_bdd / copy_bdds_from (shared memo over several roots); checked: truth table by name in the '
         'target, target wf() and canonical (same reference as building there), source untouched (tables identical), '
-        'copy_vars reproduces names and levels; in the sampled sequences the source (sometimes the target) collects garbage between '
+        'copy_vars reproduces names and levels (fresh targets, targets that already declare the top variables, targets with irreconcilable declarations: refused or reproduced anyway); in the sampled sequences the source (sometimes the target) collects garbage between '
         'copies into the same target, so node numbers of the source are re-used. non-trivial: non-constant and orders differ; distinct = (tt, orders, route).')
 EXHAUSTIVE = {'quick': False, 'thorough': False}
 REQUIRED_COUNTERS = ['copy-checked', 'copy_vars-checked', 'copies-after-source-collection']
@@ -171,6 +171,32 @@ def case_copy_vars(c, res):
     elif how == 2:
         B.reorder(src)
     dst = B.BDD()
+    pre = rnd.randrange(4)
+    by_level = sorted(src.vars, key=src.vars.get)
+    if pre == 1:
+        # the target already declares the top variables of the source, at the same levels
+        for nm in by_level[:rnd.randint(1, len(by_level))]:
+            dst.add_var(nm)
+    elif pre == 2:
+        # the target already declares something that cannot be reconciled: a variable of the source at another level, or an unrelated
+        # variable on a level the source uses. Names and levels cannot be reproduced; the call has to refuse (or achieve it anyway)
+        other = by_level[::-1] if len(by_level) > 1 and rnd.random() < .6 else ['unrelated']
+        for nm in other[:rnd.randint(1, len(other))]:
+            dst.add_var(nm)
+        before = dict(dst.vars)
+        try:
+            C.copy_vars(src, dst)
+        except Exception:  # noqa: refused
+            require(dict(dst.vars) == before or all(dst.vars.get(k) == v for k, v in before.items()), 'copy_vars#raises:declarations-kept',
+                    lambda: f'{before} -> {dst.vars}')
+            res.count('copy_vars-refused')
+            src.decref(u)
+            return (tuple(o), how, 'conflict')
+        require(all(dst.vars.get(nm) == l for nm, l in src.vars.items()), 'copy_vars#post:names-and-levels',
+                lambda: f'target declared {before}; source {dict(src.vars)} -> target {dict(dst.vars)} without an error')
+        src.decref(u)
+        res.count('copy_vars-checked')
+        return (tuple(o), how, 'conflict-accepted')
     if rnd.random() < .5:
         C.copy_vars(src, dst)
     else:
